@@ -77,17 +77,45 @@ class VirtualLoop(asyncio.SelectorEventLoop):
         super()._run_once()
 
 
+_STALLS = [0]
+
+
+class TooManyStalls(BaseException):
+    """Five sessions of this process have stalled: the verdict is in, the rest of the shard is not run."""
+
+
+class StepStalled(BaseException):
+    """One loop iteration ran for STALL_SECONDS of wall clock: something in it does not return."""
+
+
+STALL_SECONDS = float(__import__("os").environ.get("VERIF_STALL_SECONDS", "20"))
+
+
 def run(main_factory, max_steps: int = 200_000):
     """Run main_factory(loop) -> coroutine on a fresh VirtualLoop. Returns (result, loop_stats).
     Leftover tasks are cancelled before the loop is closed."""
+    if _STALLS[0] >= 5:
+        raise TooManyStalls()
     loop = VirtualLoop()
     asyncio.set_event_loop(loop)
     guard = {"tripped": False}
+
+    import signal
+
+    def on_alarm(signum, frame):
+        guard["stalled"] = True
+        raise StepStalled()
 
     def step_guard(lp):
         if lp.steps > max_steps:
             guard["tripped"] = True
             raise QuiescentDeadlock()
+        # re-armed before every iteration: fires only if ONE iteration takes STALL_SECONDS (a callback that never returns);
+        # the code that was running gets the exception, the session goes on and is reported as stalled
+        # (once sessions have stalled in this process the following ones get a short limit: the verdict is in, this only
+        # keeps a check on a hanging tree from taking hours)
+        signal.setitimer(signal.ITIMER_REAL, STALL_SECONDS if _STALLS[0] < 2 else min(STALL_SECONDS, 2.0))
+    old_handler = signal.signal(signal.SIGALRM, on_alarm)
     loop.step_observers.append(step_guard)
     result = None
     err = None
@@ -95,7 +123,14 @@ def run(main_factory, max_steps: int = 200_000):
         result = loop.run_until_complete(main_factory(loop))
     except QuiescentDeadlock as e:
         err = "step-budget-exceeded" if guard["tripped"] else "quiescent-deadlock"
+    except StepStalled:
+        err = "loop-step-stalled"
     finally:
+        signal.setitimer(signal.ITIMER_REAL, 0)
+        signal.signal(signal.SIGALRM, old_handler)
+        if guard.get("stalled"):
+            err = "loop-step-stalled"
+            _STALLS[0] += 1
         try:
             loop.step_observers.clear()
             pending = [t for t in asyncio.all_tasks(loop) if not t.done()]
@@ -110,3 +145,23 @@ def run(main_factory, max_steps: int = 200_000):
             asyncio.set_event_loop(None)
             loop.close()
     return result, {"steps": loop.steps, "vtime": loop._vtime - 1000.0, "error": err}
+
+
+import contextlib as _ctx
+
+
+@_ctx.contextmanager
+def real_loop_guard(seconds: float):
+    """Around asyncio.run() on a real event loop (conformance runs): a callback of the code under test that never
+    returns would hang the process until the shard watchdog fires; instead StepStalled is raised after `seconds`."""
+    import signal
+
+    def _alarm(signum, frame):
+        raise StepStalled()
+    old = signal.signal(signal.SIGALRM, _alarm)
+    signal.setitimer(signal.ITIMER_REAL, seconds)
+    try:
+        yield
+    finally:
+        signal.setitimer(signal.ITIMER_REAL, 0)
+        signal.signal(signal.SIGALRM, old)
